@@ -1,5 +1,6 @@
 import OntVerif.Proofs.BloomBook
 import OntVerif.Gen.BloomAlias
+import OntVerif.Gen.BloomCollect
 /-!
 # C43 — Block log blooms never miss a log of the block; the section bit index agrees with the block blooms
 
@@ -9,10 +10,11 @@ abstract function `idx3`. The byte/bit conventions of the model are tied to the 
 namespace OntVerif.Props.C43
 open OntVerif.Util OntVerif.Model.Bloom OntVerif.Proofs.Bloom
 
-/-- **No log is missed**: for every block (any list of transactions with or without receipt), every receipt, every log of it:
-the address and every topic test positive in the block bloom — for all log lists and every bit-selection function `idx3`. -/
-theorem C43_contains (idx3 : Bytes → Idx3) (receipts : List (Option (List Log))) (logs : List Log) (l : Log)
-    (hr : some logs ∈ receipts) (hl : l ∈ logs) :
+/-- **No log is missed**: for every block (any list of transactions with or without receipt), every receipt — successful OR
+FAILED: the status is a field of the receipt that the collection does not look at —, every log of it: the address and every topic
+test positive in the block bloom, for all log lists and every bit-selection function `idx3`. -/
+theorem C43_contains (idx3 : Bytes → Idx3) (receipts : List (Option Receipt)) (r : Receipt) (l : Log)
+    (hr : some r ∈ receipts) (hl : l ∈ r.logs) :
     test (blockBloom idx3 receipts) (idx3 l.address) = true ∧
     ∀ t ∈ l.topics, test (blockBloom idx3 receipts) (idx3 t) = true :=
   test_foldLogs idx3 (allLogs receipts) 0 l (mem_allLogs hr hl)
@@ -21,12 +23,41 @@ theorem C43_contains (idx3 : Bytes → Idx3) (receipts : List (Option (List Log)
 example :
     let idx3 : Bytes → Idx3 := fun b => if b = [1] then (3, 4, 5) else if b = [2] then (4, 2047, 0) else (9, 9, 9)
     let l : Log := ⟨[1], [[2]]⟩
-    some [l] ∈ [none, some [l]] ∧ l ∈ [l] ∧ test (blockBloom idx3 [none, some [l]]) (idx3 [2]) = true ∧
-      test (blockBloom idx3 [none, some [l]]) (idx3 [7]) = false := by
+    some ⟨false, [l]⟩ ∈ [none, some (⟨false, [l]⟩ : Receipt)] ∧ l ∈ [l] ∧
+      test (blockBloom idx3 [none, some ⟨false, [l]⟩]) (idx3 [2]) = true ∧
+      test (blockBloom idx3 [none, some ⟨false, [l]⟩]) (idx3 [7]) = false := by
   refine ⟨by simp, by simp, ?_, ?_⟩
   · simp [blockBloom, allLogs, logsBloom, addLog, add, test, BitVec.getLsbD_or, BitVec.getLsbD_twoPow]
   · simp [blockBloom, allLogs, logsBloom, addLog, add, test, BitVec.getLsbD_or, BitVec.getLsbD_twoPow]
     decide
+
+/-- **a FAILED receipt counts**: a block whose only EVM transaction failed (reverted / out of gas / insufficient funds) but paid a
+gas fee has a receipt with status failed that carries the fee-transfer log of the ONG contract; its address and its three topics
+are in the block bloom (instance of `C43_contains`), and the bloom is not empty -/
+example :
+    let idx3 : Bytes → Idx3 := fun b => if b = [0, 2] then (3, 4, 5) else if b = [0xdd] then (4, 2047, 0) else (9, 10, 11)
+    let fee : Log := ⟨[0, 2], [[0xdd], [0xaa], [0xbb]]⟩          -- ONG contract; Transfer signature, payer, fee receiver
+    let receipts : List (Option Receipt) := [none, some ⟨true, [fee]⟩]      -- a native transaction, then the failed EVM transaction
+    (test (blockBloom idx3 receipts) (idx3 fee.address) = true ∧
+      ∀ t ∈ fee.topics, test (blockBloom idx3 receipts) (idx3 t) = true) ∧ blockBloom idx3 receipts ≠ 0 := by
+  intro idx3 fee receipts
+  refine ⟨C43_contains idx3 receipts ⟨true, [fee]⟩ fee (by simp [receipts]) (by simp), ?_⟩
+  intro h
+  have h1 := (C43_contains idx3 receipts ⟨true, [fee]⟩ fee (by simp [receipts]) (by simp)).1
+  rw [h] at h1
+  simp [test] at h1
+
+/-! ### How `executeBlock` collects the logs (`Gen/BloomCollect.lean`, regenerated from `ledger_store.go` on every run)
+
+The model's `allLogs` takes the logs of every transaction that has a receipt and never looks at the receipt status.  Tie to the
+source: inside the loop over `block.Transactions` the collecting statement is `allLogs = append(allLogs, receipt.Logs...)`, the ONLY
+condition around it is `receipt != nil` (no status test, no other guard), nothing else assigns `allLogs`, and the loop has no
+`continue` / `break` that would skip a transaction. -/
+
+open OntVerif.Gen.BloomCollect in
+theorem C43_collects_every_receipt :
+    collectAppend = "append(allLogs, receipt.Logs...)" ∧ collectGuards = ["receipt != nil"] ∧
+    collectOtherWrites = [] ∧ loopSkips = [] := by decide
 
 /-- **The section index is the transposition of the block blooms**: for every section size `S` (a multiple of 8, as the generator
 demands) and every `S` blooms, `PutBloomIndex` does not panic and writes 2048 vectors such that for every bit `i` and every
